@@ -115,8 +115,10 @@ fn engine_shard(id: &str, tier: &str, seed: u64, replay: Option<&serde_json::Val
                 out.found.push(f);
             }
         }
-        if id == "C09" && out.found.is_empty() && replay.map(|r| r["replay"]["origin"] == "id-space-overlap").unwrap_or(shard.k == 2 % shard.n) {
+        if id == "C09" && out.found.is_empty() && replay.map(|r| r["replay"]["origin"] == "id-space-overlap" || r["replay"]["origin"] == "shared-header-values").unwrap_or(shard.k == 2 % shard.n) {
             if let Some(f) = checks_c09::id_space_overlap_part(&mut out.cov) {
+                out.found.push(f);
+            } else if let Some(f) = checks_c09::shared_header_values_part(&mut out.cov) {
                 out.found.push(f);
             }
         }
